@@ -17,26 +17,26 @@ LEVEL = {
          "arc-swap atomicity, mmap page cache and real interleavings are reduced to lock-window obligations; the lock itself is C18"),
  "C06": ("K", "CBMC on the compiled collectors: TopNComputer and TopNHeap return exactly the best K with the address tie-break for every key sequence within the bounds (concrete K per harness), thresholds never reject a top-K member, block-max metadata is an upper bound; merge_top_k in the thorough tier.",
          "block-WAND loops over real postings, executors and sort-key extraction are outside; K and the number of pushes are small and concrete"),
- "C07": ("K", "Codec level, CBMC: VInt family, posting-tail VInt, skip list write -> read -> seek for the three record options, in-block search (all sorted 128-arrays), field-norm code, bit-packer widths.",
-         "fst dictionary, arena hash map, SegmentWriter end-to-end, 128-value SIMD blocks and lists longer than 2 blocks + tail are outside"),
- "C08": ("K", "Codec level, CBMC: bit-packer round trip per width, monotonic mappings, range push-down through min/gcd, Line residual exactness condition, dense rank/select and sparse block kernels.",
-         "column serializers / readers end-to-end, codec selection, dictionary columns and merges are outside"),
+ "C07": ("K", "Codec level, CBMC: VInt family, posting-tail VInt, skip list write -> read -> seek for the three record options, in-block search (all sorted 128-arrays), field-norm code, bit-packer widths; term-key equality and arena copy of the indexing hash map (stacker fastcmp / fastcpy) for keys <= 40 / 70 bytes with memory-safety checks.",
+         "fst dictionary, the arena hash map as a whole, SegmentWriter end-to-end, 128-value SIMD blocks and lists longer than 2 blocks + tail are outside"),
+ "C08": ("K", "Codec level, CBMC: bit-packer round trip per width, monotonic mappings, range push-down through min/gcd, Line residual exactness condition, dense rank/select and sparse block kernels; stack merge of column indexes (rows-with-values of full / empty / legacy-v1 multivalued inputs shifted by the table offset).",
+         "column serializers / readers end-to-end, codec selection, dictionary columns, shuffled merges and v2 inputs of the stack merge are outside"),
  "C10": ("M", "z3 over the MIR of ManagedDirectory::garbage_collect, SegmentUpdater::list_files and the commit task: living set and deletion candidates computed under both locks, only managed-and-not-living paths marked, bookkeeping persisted after sync, GC only after publication.",
          "inventory liveness under real schedules and 'no orphan after any history' are data-level statements outside the encoding"),
- "C11": ("M", "z3 over the MIR: for each storage-touching call on the commit / purge / merge / worker paths, the Err branch reaches the caller (or the merge future) and nothing after a failed step touches meta.json; in-memory meta only follows a successful write.",
+ "C11": ("M", "z3 over the MIR: for each storage-touching call on the commit / purge / merge / worker paths, the Err branch reaches the caller (or the merge future) and nothing after a failed step touches meta.json; in-memory meta only follows a successful write; no Result is dropped unexamined and no I/O-carrying Result goes through an error-erasing adapter (ok / unwrap_or* / flatten / filter_map ...) on these paths outside a justified allow-list (per-function scans).",
          "a fault at every operation of a whole workload on every thread, abort / hang freedom and recovery are outside"),
  "C12": ("K", "Arithmetic level, CBMC with IEEE f32: tf-factor range / monotonicity / antitonicity, cache component monotonicity, boost multiplication, idf argument domain, combiners, field-norm quantisation.",
          "ln is not modelled (idf is an uninterpreted finite input); statistics over segments and explain() strings are outside"),
- "C13": ("K", "CBMC: for each DocSet type built over symbolic leaves, every program of 2 (quick) / 3 (thorough) calls over {advance, seek(t)} (plus fill_buffer / fill_bitset_block / count in the thorough tier) observes the sorted sequence of the type's set semantics, seek(t) = first doc >= t, TERMINATED is sticky, score independent of the access path.",
-         "leaves <= 3 docs, programs <= 3 calls; postings-backed scorers, BufferedUnionScorer windows and phrase scorers need real segments and are outside"),
+ "C13": ("K+M", "CBMC: for each DocSet type built over symbolic leaves, every program of 2 (quick) / 3 (thorough) calls over {advance, seek(t)} (plus fill_buffer / fill_bitset_block / count in the thorough tier) observes the sorted sequence of the type's set semantics, seek(t) = first doc >= t, TERMINATED is sticky, score independent of the access path; phrase / phrase-prefix scorers over array postings; BufferedUnionScorer across a window refill from a fixed reachable state (assume-guarantee cut: two fill_buffer calls -> link state -> advance); z3 over the MIR of fill_buffer: every document handed out releases its score slot.",
+         "leaves <= 3 docs, programs <= 3 calls; postings-backed scorers on real segments, BufferedUnionScorer programs starting at build() and its scores as values are outside (measured: 50 GB)"),
  "C15": ("K", "Kernel level, CBMC: sstable VInt, common prefix, separator-key contract, order enforcement of Writer::insert_key.",
          "whole Dictionary, block index, streaming, merges, fst and automata are outside (measured infeasible)"),
  "C17": ("K", "Kernel level, CBMC: DocIdMapping inverse / remap on all permutations of 4, permutation validation, order-independence of the delete rule.",
          "IndexMerger sort paths and per-structure remaps need segment readers and are outside"),
  "C18": ("K+M", "CBMC: the default lock implementation as a state machine (at most one live guard, acquire Ok iff free, failed acquire changes nothing); z3 over MIR: writer creation acquires INDEX_WRITER_LOCK before IndexWriter::new, rollback moves the guard without re-acquiring or dropping.",
          "flock semantics, RamDirectory (HashMap) and racing creations are reduced to the create-new assumption"),
- "C19": ("K", "Tightly bounded, CBMC: token offsets of Simple / Whitespace tokenizers on every valid UTF-8 text of 2-3 bytes with Unicode classification stubbed by an arbitrary class function; snippet range merging.",
-         "texts > 3 bytes, filters that rewrite text, n-grams, stemmers, regex, HTML escaping are outside; the stub makes no claim about which characters are letters"),
+ "C19": ("K", "Tightly bounded, CBMC: token offsets of Simple / Whitespace tokenizers on every valid UTF-8 text of 2-3 bytes with Unicode classification stubbed by an arbitrary class function; NgramTokenizer emits exactly the n-grams in order on char boundaries for every valid UTF-8 text of 3 bytes (4 in the thorough tier); snippet range merging.",
+         "texts > 3-4 bytes, filters that rewrite text, the compound splitter, stemmers, regex, HTML escaping are outside; the stub makes no claim about which characters are letters"),
  "C20": ("K+M", "CBMC: FooterProxy hashes exactly the accepted bytes under short writes, version gate, CRC-32 (baseline implementation) detects single byte / bit damage and length change of small bodies; z3 over MIR: validate_checksum hashes the extracted body and compares with the footer, open_read gates on is_compatible.",
          "SIMD CRC, JSON footers and wider damage are outside"),
 }
